@@ -60,6 +60,9 @@ where
             return;
         };
 
+        #[cfg(p2panda_p2panda_verif)]
+        verif::point("mark:removed").await;
+
         task.mark_as_done(result).await;
     }
 }
@@ -108,6 +111,9 @@ where
             *ready_result = Some(result);
         }
 
+        #[cfg(p2panda_p2panda_verif)]
+        verif::point("mark:result-set").await;
+
         self.ready_signal.notify_waiters();
     }
 
@@ -123,6 +129,9 @@ where
             }
         }
 
+        #[cfg(p2panda_p2panda_verif)]
+        verif::point("ready:checked").await;
+
         // If not, we wait until we got notified that an result exists.
         self.ready_signal.notified().await;
 
@@ -130,6 +139,37 @@ where
         ready_result
             .clone()
             .expect("result exists after ready signal was fired")
+    }
+}
+
+/// Verification-only schedule points (compiled only with `--cfg p2panda_p2panda_verif`).
+///
+/// A harness can install a callback which is invoked at labelled points inside the task tracker;
+/// the future it returns (if any) is awaited right there, which lets the harness park the calling
+/// task and realise a chosen interleaving. Without a callback the points do nothing.
+#[cfg(p2panda_p2panda_verif)]
+pub mod verif {
+    use std::future::Future;
+    use std::pin::Pin;
+    use std::sync::{Arc, RwLock};
+
+    pub type PointFuture = Pin<Box<dyn Future<Output = ()> + Send>>;
+    pub type PointFn = Arc<dyn Fn(&'static str) -> Option<PointFuture> + Send + Sync>;
+
+    static CALLBACK: RwLock<Option<PointFn>> = RwLock::new(None);
+
+    /// Installs (or removes) the process-wide schedule point callback.
+    pub fn set_schedule_point(callback: Option<PointFn>) {
+        *CALLBACK.write().expect("schedule point lock") = callback;
+    }
+
+    pub(super) async fn point(label: &'static str) {
+        let callback = CALLBACK.read().expect("schedule point lock").clone();
+        if let Some(callback) = callback {
+            if let Some(future) = callback(label) {
+                future.await;
+            }
+        }
     }
 }
 
